@@ -312,6 +312,9 @@ def main():
         ["each step waits 120 ms for the event loop (50 ms read timeout + 10 ms poll); a crash that needs longer than that after its trigger is attributed to a later step", "a client that does not connect within 10 s is inconclusive"],
         a.seed,
         regress_one=run_any,
+        # the invalid-value grammar is finite: swept completely on every run
+        extra_cases=[{"cli": True, "opt": o, "val": i, "extra_location": e} for o in sorted(BAD_VALUES) for i in range(len(BAD_VALUES[o])) for e in ((False, True) if o == "--locations" else (False,))],
+        exhaustive=True,
     )
     sys.exit(rc)
 
